@@ -132,6 +132,31 @@ def persist_both(ctx, rule='C10.persist-both'):
             _, ra = dg.slice_local(0)
             if has_field(ra, 'Freelist', 'free_pages') and has_field(ra, 'Freelist', 'pending_pages'):
                 okk = True
+                # ... and from ALL pending entries: the pending map is walked, not looked up by key (the pages other, older transactions released are still
+                # pending at this commit and would be forgotten on reopen)
+                gx = ctx.A.xf(g)
+                dgx = ctx.du(gx)
+                whole, keyed = [], []
+                for b2 in sorted(gx.reachable_blocks()):
+                    t2 = gx.term(b2)
+                    c2 = callee_of(t2) if t2['k'] == 'call' else None
+                    if not c2 or not t2['args'] or 'BTreeMap' not in strip_generics(c2['path']) and 'HashMap' not in strip_generics(c2['path']):
+                        continue
+                    _, aa = dgx.slice_operand(t2['args'][0])
+                    if not has_field(aa, 'Freelist', 'pending_pages'):
+                        continue
+                    nm = last_seg(strip_generics(c2['path']))
+                    if nm in ('iter', 'values', 'into_iter', 'into_values', 'iter_mut', 'values_mut'):
+                        whole.append(gx.loc(b2))
+                    elif nm in ('get', 'get_mut', 'range', 'range_mut', 'first_key_value', 'last_key_value', 'get_key_value', 'remove', 'entry', 'pop_first', 'pop_last'):
+                        keyed.append((nm, gx.loc(b2)))
+                if keyed or not whole:
+                    okk = False
+                    res.append(bad(rule, '%s | persisted list takes only some pending entries' % g.qual,
+                                   '%s, which builds the list written into the free-list page, reads Freelist.pending_pages %s instead of walking the whole map: pages released by other '
+                                   'transactions and still pending are forgotten (leaked) when the database is reopened'
+                                   % (g.qual, ('by key (%s at %s)' % keyed[0]) if keyed else 'without iterating it'), where=keyed[0][1] if keyed else '%s:%d' % (g.file, g.line)))
+                    return res
         if okk:
             res.append(ok(rule, 'the list persisted at %s is built from both free_pages and pending_pages' % fn.loc(n.bb), sites=1))
         else:
@@ -322,6 +347,52 @@ def delete_walk_guard(ctx, rule='C10.delete-walk-guard'):
     return res
 
 
+def walk_frees_visited(ctx, rule='C10.walk-frees-visited'):
+    """the deletion walk frees only the page it is visiting -- the id it took from its worklist (or received as its parameter, if recursive).  A page freed under
+    any other name (a child id read out of a branch element, say) is not visited, so what hangs below it -- children of a branch, nested buckets of a leaf --
+    is never freed: those pages leak for good."""
+    res = []
+    try:
+        dw, txfree = ctx.need('delete-walk', 'tx-free-role')
+    except AnchorError as e:
+        return [unresolved(rule, str(e))]
+    fn = ctx.A.xf(dw)
+    du = ctx.du(fn)
+    frees = calls_to_fn(ctx.facts, fn, txfree)
+    f = floor(rule, 'page frees in the bucket deletion walk', len(frees), 1)
+    if f:
+        return [f]
+    POPS = ('pop', 'pop_front', 'pop_back', 'pop_first', 'pop_last', 'next')
+
+    def visited(e):
+        while e and e[0] == 'field' and all(str(x).isdigit() or x in ('Some',) for x in e[2]):
+            e = e[1]
+        if not e:
+            return False
+        if e[0] == 'arg':
+            return True
+        if e[0] == 'call' and last_seg(strip_generics(e[1])) in POPS:
+            # `next` only on a draining iterator over the worklist itself, not over a page's elements
+            if last_seg(strip_generics(e[1])) == 'next':
+                import c16
+                return not c16._tree_has(e, lambda x: x[0] == 'call' and ('page::' in x[1] or 'Page::' in x[1]))
+            return True
+        if e[0] == 'phi':
+            return all(visited(x) for x in e[1:] if isinstance(x, tuple))
+        return False
+    for bb, t, c in frees:
+        # the id is the first argument after the receiver
+        e = du.sym(t['args'][1]) if len(t['args']) > 1 else ('?',)
+        if visited(e):
+            res.append(ok(rule, 'the page freed at %s is the one taken from the walk\'s worklist' % fn.loc(bb), sites=1))
+        else:
+            import c16
+            res.append(bad(rule, '%s | frees a page it does not visit' % dw.qual,
+                           'the deletion walk frees `%s` at %s, which is not the id it took from its worklist: that page is never visited, so the pages below it (children of a '
+                           'branch, nested buckets of a leaf) are never freed and leak' % (c16._fmt(e)[:160], fn.loc(bb)), where=fn.loc(bb)))
+    return res
+
+
 def run(ctx, tier):
     ob = commit.obligations(ctx)
     results = []
@@ -330,14 +401,18 @@ def run(ctx, tier):
     results += persist_both(ctx)
     results += c02.reload_rule(ctx, rule='C10.reload')
     results += [r for r in ob['O5']]
+    results += c09.writer_reads_after_lock(ctx, rule='C10.writer-snapshot')
     results += deregister(ctx)
     results += blocking_registry(ctx)
     results += release_per_entry(ctx)
     results += delete_walk_guard(ctx)
+    results += walk_frees_visited(ctx)
     results += c03.register(ctx, rule='C10.register')
     import c06
     results += c06.shared_freelist(ctx, rule='C10.shared-freelist')
     results += c03.release_sites(ctx, rule='C10.release-site')
+    import profile
+    results += profile.debug_pure(ctx, 'C10.debug-pure')
     return dict(
         results=results, stats=dict(ctx.stats),
         explanation=(
